@@ -410,6 +410,39 @@ def NoFail (fc : FCfg) : Prop := ∀ b, b ∈ fc.fails → b = false
 /-- every `play` call of the script has a positive chunk size -/
 def PosCs (script : List Cmd) : Prop := ∀ a c, Cmd.play a c ∈ script → 0 < c
 
+/-- `PosCs` as a check of the script -/
+def posCsB : List Cmd → Bool
+  | [] => true
+  | .play _ c :: l => decide (0 < c) && posCsB l
+  | .ctl _ _ :: l => posCsB l
+  | .join _ :: l => posCsB l
+  | .close :: l => posCsB l
+
+theorem posCs_of_check : ∀ (script : List Cmd), posCsB script = true → PosCs script := by
+  intro script
+  induction script with
+  | nil => intro _ a c h; simp at h
+  | cons cmd rest ih =>
+    intro hb a c h
+    cases cmd with
+    | play a' c' =>
+      simp only [posCsB, Bool.and_eq_true, decide_eq_true_eq] at hb
+      rcases List.mem_cons.mp h with h | h
+      · simp only [Cmd.play.injEq] at h; obtain ⟨_, rfl⟩ := h; exact hb.1
+      · exact ih hb.2 a c h
+    | ctl k i =>
+      rcases List.mem_cons.mp h with h | h
+      · cases h
+      · exact ih hb a c h
+    | join i =>
+      rcases List.mem_cons.mp h with h | h
+      · cases h
+      · exact ih hb a c h
+    | close =>
+      rcases List.mem_cons.mp h with h | h
+      · cases h
+      · exact ih hb a c h
+
 /-- what the refinement looks at: the chunk generator's data and "is at `write`" -/
 def genView (p : Player) : PCore × Bool := (core p, atW p)
 
@@ -470,9 +503,30 @@ theorem ref_write (p : Player) (a : Asm) (h : Ref (genView p) a) (hw : atW p = t
       have := h5 hw; rw [hr, List.append_nil] at this; exact this
     rw [hr, List.append_nil, chunksOf_short p.cs a.buf hne (by omega), chunksOf_nil p.cs h1]
 
+/-- samples still to be pulled, all players together (the stutter steps decrease it) -/
+def restSum (asm : List Asm) : Nat := (asm.map (fun a => a.rest.length)).sum
+
+theorem restSum_set (asm : List Asm) (i : Nat) (a a' : Asm) (ha : asm[i]? = some a) :
+    restSum (asm.set i a') + a.rest.length = restSum asm + a'.rest.length := by
+  induction asm generalizing i with
+  | nil => simp at ha
+  | cons b l ih =>
+    cases i with
+    | zero =>
+      simp only [List.getElem?_cons_zero, Option.some.injEq] at ha
+      subst ha
+      simp only [restSum, List.set_cons_zero, List.map_cons, List.sum_cons]
+      omega
+    | succ j =>
+      simp only [List.getElem?_cons_succ] at ha
+      have := ih j ha
+      simp only [restSum, List.set_cons_succ, List.map_cons, List.sum_cons] at this ⊢
+      omega
+
 theorem sim_stepPlayerF (fc : FCfg) (fs fs' : FState) (i : Nat)
     (h : stepPlayerF fc fs i = some fs') (inv : AllF genView fs Ref) :
-    (stepPlayer fc.cfg fs.base i = some fs'.base ∨ fs'.base = fs.base) ∧ AllF genView fs' Ref := by
+    ((stepPlayer fc.cfg fs.base i = some fs'.base ∧ restSum fs'.asm = restSum fs.asm) ∨
+      (fs'.base = fs.base ∧ restSum fs'.asm + 1 = restSum fs.asm)) ∧ AllF genView fs' Ref := by
   unfold stepPlayerF at h
   split at h
   · rename_i p a hp ha
@@ -482,14 +536,14 @@ theorem sim_stepPlayerF (fc : FCfg) (fs fs' : FState) (i : Nat)
     · rename_i hpc
       have hw : atW p = false := by simp [atW, hpc]
       cases h
-      refine ⟨Or.inl ?_, AllF_update hp ha rfl (set_self _ _ _ ha).symm inv
+      refine ⟨Or.inl ⟨?_, rfl⟩, AllF_update hp ha rfl (set_self _ _ _ ha).symm inv
         (fun hR => ref_loopHead p _ a hR hw (by simp [core]) (Or.inl rfl))⟩
       rw [loopHead_eq p a hR hw]
       simp [stepPlayer, hp, hpc]
     · rename_i hpc
       have hw : atW p = false := by simp [atW, hpc]
       cases h
-      refine ⟨Or.inl ?_, AllF_update hp ha rfl (set_self _ _ _ ha).symm inv
+      refine ⟨Or.inl ⟨?_, rfl⟩, AllF_update hp ha rfl (set_self _ _ _ ha).symm inv
         (fun hR => ref_loopHead p _ a hR hw (by simp [core]) ?_)⟩
       · rw [loopHead_eq p a hR hw]
         simp [stepPlayer, hp, hpc]
@@ -499,7 +553,7 @@ theorem sim_stepPlayerF (fc : FCfg) (fs fs' : FState) (i : Nat)
     · rename_i hpc
       have hw : atW p = false := by simp [atW, hpc]
       cases h
-      refine ⟨Or.inl ?_, AllF_update hp ha rfl (set_self _ _ _ ha).symm inv
+      refine ⟨Or.inl ⟨?_, rfl⟩, AllF_update hp ha rfl (set_self _ _ _ ha).symm inv
         (fun hR => ref_loopHead p _ a hR hw (by simp [core]) (Or.inl rfl))⟩
       rw [loopHead_eq p a hR hw]
       simp [stepPlayer, hp, hpc]
@@ -509,8 +563,11 @@ theorem sim_stepPlayerF (fc : FCfg) (fs fs' : FState) (i : Nat)
       · rename_i hready
         have ht := ref_write p a hR hw hready
         cases h
-        refine ⟨Or.inl ?_, AllF_update hp ha rfl rfl inv (fun hR => ?_)⟩
+        refine ⟨Or.inl ⟨?_, ?_⟩, AllF_update hp ha rfl rfl inv (fun hR => ?_)⟩
         · simp only [stepPlayer, hp, hpc, ht, List.tail_cons]
+        · have := restSum_set fs.asm i a { a with buf := [] } ha
+          simp only at this ⊢
+          omega
         · obtain ⟨h1, h2, _, _, _, _⟩ := hR
           refine ⟨h1, h2, ?_, fun _ => rfl, ?_, by simp⟩
           · simp only [genView, core, ht, List.tail_cons, List.nil_append]
@@ -521,7 +578,13 @@ theorem sim_stepPlayerF (fc : FCfg) (fs fs' : FState) (i : Nat)
         split at h
         · rename_i x r hrest
           cases h
-          refine ⟨Or.inr rfl, AllF_update hp ha (set_self _ _ _ hp).symm rfl inv (fun hR => ?_)⟩
+          have hsum : restSum (fs.asm.set i { a with rest := r, buf := a.buf ++ [x] }) + 1 =
+              restSum fs.asm := by
+            have := restSum_set fs.asm i a { a with rest := r, buf := a.buf ++ [x] } ha
+            rw [hrest] at this
+            simp only [List.length_cons] at this
+            omega
+          refine ⟨Or.inr ⟨rfl, hsum⟩, AllF_update hp ha (set_self _ _ _ hp).symm rfl inv (fun hR => ?_)⟩
           obtain ⟨h1, h2, h3, _, _, h6⟩ := hR
           have hn : a.buf.length ≠ p.cs := by
             intro e; apply hready; simp [chunkReady, e]
@@ -542,7 +605,7 @@ theorem sim_stepPlayerF (fc : FCfg) (fs fs' : FState) (i : Nat)
         rw [hs] at h
         cases h
         obtain ⟨p', hps, hc, hw', hw⟩ := stepPlayer_rest fc.cfg fs.base s' i p hp hs h1 h2 h3 h4
-        refine ⟨Or.inl rfl, AllF_update hp ha hps (set_self _ _ _ ha).symm inv ?_⟩
+        refine ⟨Or.inl ⟨rfl, rfl⟩, AllF_update hp ha hps (set_self _ _ _ ha).symm inv ?_⟩
         have : genView p' = genView p := by simp [genView, hc, hw, hw']
         rw [this]; exact id
   · cases h
@@ -603,7 +666,7 @@ theorem sim_reach {fc : FCfg} {script : List Cmd} {fs : FState} (hnf : NoFail fc
       exact ⟨Reach.step (t := .main) hr h1, h2⟩
     | player i =>
       obtain ⟨h1, h2⟩ := sim_stepPlayerF fc fs fs' i hs inv
-      rcases h1 with h1 | h1
+      rcases h1 with ⟨h1, _⟩ | ⟨h1, _⟩
       · exact ⟨Reach.step (t := .player i) hr h1, h2⟩
       · rw [h1]; exact ⟨hr, h2⟩
 
